@@ -85,7 +85,49 @@ func isNilConst(v ssa.Value) bool {
 // staticCallee returns the statically known callee of a call instruction
 // (functions, methods with static receivers, immediately-applied closures).
 func staticCallee(c ssa.CallInstruction) *ssa.Function {
-	return c.Common().StaticCallee()
+	if f := c.Common().StaticCallee(); f != nil {
+		return f
+	}
+	return localFuncCallee(c)
+}
+
+// localFuncCallee: a call through a local function variable that is assigned exactly once, with
+// a function literal (`helper := func(...) {...}` called directly or from sibling closures that
+// capture it): the literal is the callee.
+func localFuncCallee(c ssa.CallInstruction) *ssa.Function {
+	cc := c.Common()
+	if cc.IsInvoke() {
+		return nil
+	}
+	lu, ok := cc.Value.(*ssa.UnOp)
+	if !ok || lu.Op != token.MUL {
+		return nil
+	}
+	var cell ssa.Value = lu.X
+	if fv, ok := cell.(*ssa.FreeVar); ok {
+		b := freeVarBinding(fv)
+		if b == nil {
+			return nil
+		}
+		cell = b
+	}
+	al, ok := cell.(*ssa.Alloc)
+	if !ok {
+		return nil
+	}
+	sts := storesTo(al)
+	if len(sts) != 1 {
+		return nil
+	}
+	mc, ok := sts[0].Val.(*ssa.MakeClosure)
+	if !ok {
+		if f, ok := sts[0].Val.(*ssa.Function); ok {
+			return f
+		}
+		return nil
+	}
+	f, _ := mc.Fn.(*ssa.Function)
+	return f
 }
 
 // calleeName renders the callee of a call as "pkgpath.Func", "(pkgpath.T).M"
